@@ -24,11 +24,18 @@
    boundary-point property: a best boundary threshold is best among all admissible thresholds),
    ProofsScale (the fitted regressor commutes with every monotone, midpoint-preserving relabelling of
    the feature values: simulation through quicksort, sweep and growth) + ProofsScaleR (exact reals,
-   any positive factor) + ProofsScaleF64 (binary64, factor 2^e, via Flocq). *)
+   any positive factor) + ProofsScaleF64 (binary64, factor 2^e, via Flocq), ProofsPredict (path
+   characterisation of predict_for_row, uniqueness of the routed leaf, predict_regressor /
+   predict_classifier) + ProofsPredictFit (predicting a training row returns the value of the leaf the
+   row was partitioned into at fit time), ProofsMonotone (two split searches that agree up to the value
+   of the threshold grow the same tree up to threshold values, with the same partition of the training
+   rows) + ProofsMonotoneReg (regression tree over exact reals: feature columns transformed by strictly
+   increasing maps). *)
 From Coq Require Import List Arith ZArith Bool Reals Lra Floats Lia.
 From SC Require Import Base.Num C05.Model C05.ProofsGrow C05.ProofsReg C05.ProofsCls C05.ProofsSort
                        C05.ProofsSorted C05.ProofsEndToEnd C05.ProofsGrowFull C05.ProofsOpt C05.ProofsOptCls C05.ProofsPure
-                       C05.ProofsImpurity C05.ProofsBoundary C05.ProofsScale C05.ProofsScaleR C05.ProofsScaleF64.
+                       C05.ProofsImpurity C05.ProofsBoundary C05.ProofsScale C05.ProofsScaleR C05.ProofsScaleF64
+                       C05.ProofsPredict C05.ProofsPredictFit C05.ProofsMonotone C05.ProofsMonotoneReg C05.ProofsMonotoneFit.
 Import ListNotations.
 Local Open Scope nat_scope.
 
@@ -582,6 +589,313 @@ Proof.
   cbn [option_map relabel_tree fst]. rewrite map_map. reflexivity.
 Qed.
 
+(* ---- predict ----
+   Vocabulary (C05/ProofsPredict.v):
+   - `next_child O nd row` : the child to which the internal node nd sends the row: true_child iff
+     row[split_feature nd] <= split_value nd, false_child otherwise (a missing threshold compares false,
+     as `unwrap_or(NaN)` does);
+   - `root_path O nodes row p k` (inductive: `rp_root : root_path [] 0`, `rp_step : root_path p k ->
+     nodes[k] = nd internal -> next_child nd row = Some c -> root_path (k :: p) c`): k is reached from the
+     root by the threshold tests, p lists the internal nodes passed, the parent of k first, the root last;
+   - `leaf_of O nodes row k` : k is a leaf at the end of such a path.
+   predict_leaf: for EVERY node array that satisfies the growth invariant `wf_treeb` (every node has no
+   child or two children whose indices are larger than its own and inside the array - this is what
+   C05_fitted_tree_wf proves of fitted trees and what the correspondence evaluates on the
+   implementation's arrays), every number type and every row: predict_for_row does not exhaust its
+   fuel (= number of nodes), and returns the output of THE leaf at the end of the row's path: the path
+   exists, has fewer steps than there are nodes, its node indices increase strictly, and both the path
+   and the leaf are unique.  Axiom-free. *)
+Theorem C05_predict_leaf : forall T A (O : Ops T) (nodes : list (node T A)) (row : list T),
+  wf_treeb nodes = true ->
+  exists p k nd, root_path O nodes row p k /\ nth_error nodes k = Some nd /\ leafb nd = true /\
+    predict_for_row O nodes row = Some (output nd) /\
+    length p < length nodes /\ Forall (fun j => j < k) p /\
+    forall p' k' nd', root_path O nodes row p' k' -> nth_error nodes k' = Some nd' -> leafb nd' = true ->
+      p' = p /\ k' = k.
+Proof. exact @predict_leaf. Qed.
+
+(* `route` of the growth theorems is `root_path` without the recorded path, so the leaf named by
+   C05_predict_routes is unique: two routed leaves coincide (no hypothesis on the node array) *)
+Theorem C05_route_is_root_path : forall T A (O : Ops T) (nodes : list (node T A)) (row : list T) k,
+  route O nodes row k <-> exists p, root_path O nodes row p k.
+Proof.
+  intros T A O nodes row k. split; [apply route_root_path|]. intros [p P]. exact (root_path_route O nodes row p k P).
+Qed.
+Theorem C05_routed_leaf_unique : forall T A (O : Ops T) (nodes : list (node T A)) (row : list T) k nd k' nd',
+  route O nodes row k -> nth_error nodes k = Some nd -> leafb nd = true ->
+  route O nodes row k' -> nth_error nodes k' = Some nd' -> leafb nd' = true -> k' = k.
+Proof. exact @route_leaf_unique. Qed.
+
+(* the public batch functions.  DecisionTreeRegressor::predict: one value per row, the output of that
+   row's leaf; never `None` on a well-formed node array *)
+Theorem C05_predict_regressor_leaf : forall T (O : Ops T) (nodes : list (node T T)) (rows : list (list T)),
+  wf_treeb nodes = true ->
+  exists outs, predict_regressor O nodes rows = Some outs /\ length outs = length rows /\
+    forall i, i < length rows ->
+      exists k, leaf_of O nodes (nth i rows []) k /\ k < length nodes /\
+                nth i outs (o0 O) = output (nth k nodes (dnode (o0 O))).
+Proof. exact @predict_regressor_leaves. Qed.
+
+(* DecisionTreeClassifier::predict: classes[output of the row's leaf]; never `None` (no index panic) when
+   every leaf output indexes into `classes` (true of fitted trees: C05_leaf_value_classification_fit) *)
+Theorem C05_predict_classifier_leaf :
+  forall T (O : Ops T) (classes : list T) (nodes : list (node T nat)) (rows : list (list T)),
+  wf_treeb nodes = true ->
+  (forall k, k < length nodes -> leafb (nth k nodes (dnode 0)) = true ->
+             output (nth k nodes (dnode 0)) < length classes) ->
+  exists labels, predict_classifier O classes nodes rows = Some labels /\ length labels = length rows /\
+    forall i, i < length rows ->
+      exists k, leaf_of O nodes (nth i rows []) k /\ k < length nodes /\
+                output (nth k nodes (dnode 0)) < length classes /\
+                nth i labels (o0 O) = nth (output (nth k nodes (dnode 0))) classes (o0 O).
+Proof. exact @predict_classifier_leaves. Qed.
+
+(* predict_training_rows, structural half - ANY number type (binary64 included), any split search (both
+   trees, any criterion), any weights / tried features / limits: in a tree grown by the model, predicting
+   training row i returns the output of a leaf k whose ghost sample vector G k (the vector handed to node k
+   at fit time: C05_node_samples_invariant, same G) counts row i with its full weight, while every other
+   leaf counts it 0 times: k is the leaf into which row i was partitioned at fit time.  Axiom-free. *)
+Theorem C05_predict_training_rows_structure :
+  forall T A (O : Ops T) (a0 : A) x msl find root_out samples md nodes d,
+  grow_tree O a0 x msl find root_out samples md = Some (nodes, d) ->
+  exists G D, tree_consistent O a0 x msl (fun _ _ => True) samples nodes G D /\
+    forall i, i < length x ->
+      exists k, leaf_of O nodes (nth i x []) k /\ k < length nodes /\ leafb (nth k nodes (dnode a0)) = true /\
+        predict_for_row O nodes (nth i x []) = Some (output (nth k nodes (dnode a0))) /\
+        nth i (G k) 0 = nth i samples 0 /\
+        (forall k', k' < length nodes -> leafb (nth k' nodes (dnode a0)) = true -> k' <> k -> nth i (G k') 0 = 0) /\
+        nth i samples 0 <= sum_nat (G k).
+Proof. exact @predict_training_rows_structure. Qed.
+
+(* predict_training_rows, regression (exact reals), end to end: fit_weak_learner with arbitrary sample
+   counts and tried features, then predict on the training matrix.  predict returns a value for every
+   row; the value for training row i is the output of the leaf k that counts row i (G k i = samples i,
+   all other leaves 0), and if the row has weight > 0 it is the weighted MEAN target of the rows counted
+   by that leaf, (sum_r G k r * y r) / (sum_r G k r). *)
+Theorem C05_predict_training_rows_regressor_weak : forall x y samples vars md msl mss nodes d,
+  length y = length x -> length samples = length x ->
+  (forall id j, In j (vars id) -> j < length (hd [] x)) ->
+  fit_regressor_weak ROps x y samples vars md msl mss = Some (nodes, d) ->
+  exists G D, tree_consistent ROps 0%R x msl (reg_out_ok x y) samples nodes G D /\
+    (forall r k, r < length x -> k < length nodes ->
+      (route ROps nodes (nth r x []) k -> nth r (G k) 0 = nth r samples 0) /\
+      (~ route ROps nodes (nth r x []) k -> nth r (G k) 0 = 0)) /\
+    exists outs, predict_regressor ROps nodes x = Some outs /\ length outs = length x /\
+      forall i, i < length x ->
+        exists k, leaf_of ROps nodes (nth i x []) k /\ k < length nodes /\
+          leafb (nth k nodes (dnode 0%R)) = true /\
+          nth i (G k) 0 = nth i samples 0 /\
+          (forall k', k' < length nodes -> leafb (nth k' nodes (dnode 0%R)) = true -> k' <> k ->
+                      nth i (G k') 0 = 0) /\
+          nth i outs 0%R = output (nth k nodes (dnode 0%R)) /\
+          (0 < nth i samples 0 ->
+             nth i outs 0%R =
+             (rsum (fun r => IZN (nth r (G k) 0%nat) * nth r y 0) (seq 0%nat (length x)) / IZN (sum_nat (G k)))%R).
+Proof. exact predict_training_regressor_weak. Qed.
+
+(* ... for DecisionTreeRegressor::fit followed by predict on the training matrix (all weights 1: G k is the
+   0/1 indicator of the training rows routed to leaf k, so the prediction for row i is the plain mean of
+   the targets of the training rows that share its leaf) *)
+Theorem C05_predict_training_rows_regressor : forall x y md msl mss nodes d,
+  length y = length x ->
+  fit_regressor ROps x y md msl mss = Some (nodes, d) ->
+  exists G D, tree_consistent ROps 0%R x msl (reg_out_ok x y) (repeat 1 (length x)) nodes G D /\
+    (forall r k, r < length x -> k < length nodes ->
+      (route ROps nodes (nth r x []) k -> nth r (G k) 0 = 1) /\
+      (~ route ROps nodes (nth r x []) k -> nth r (G k) 0 = 0)) /\
+    exists outs, predict_regressor ROps nodes x = Some outs /\ length outs = length x /\
+      forall i, i < length x ->
+        exists k, leaf_of ROps nodes (nth i x []) k /\ k < length nodes /\
+          leafb (nth k nodes (dnode 0%R)) = true /\
+          nth i (G k) 0 = 1 /\
+          (forall k', k' < length nodes -> leafb (nth k' nodes (dnode 0%R)) = true -> k' <> k ->
+                      nth i (G k') 0 = 0) /\
+          nth i outs 0%R = output (nth k nodes (dnode 0%R)) /\
+          nth i outs 0%R =
+            (rsum (fun r => IZN (nth r (G k) 0%nat) * nth r y 0) (seq 0%nat (length x)) / IZN (sum_nat (G k)))%R.
+Proof. exact predict_training_regressor_fit. Qed.
+
+(* predict_training_rows, classification (exact reals for the feature comparisons; any criterion, any lg2):
+   the label predicted for training row i is classes[c], c the output of the leaf k that counts row i;
+   c is a class index with maximal count among the rows counted by that leaf (a plurality class of the
+   leaf's samples), and the label is one of the training labels. *)
+Theorem C05_predict_training_rows_classifier_weak :
+  forall lg2 crit x y samples vars md msl mss classes nodes d,
+  length y = length x -> length samples = length x ->
+  (forall id j, In j (vars id) -> j < length (hd [] x)) ->
+  fit_classifier_weak ROps lg2 crit x y samples vars md msl mss = Some (classes, nodes, d) ->
+  exists yi, length yi = length x /\
+    (forall i, i < length x -> nth i yi 0 < length classes /\ nth (nth i yi 0) classes 0%R = nth i y 0%R) /\
+    exists G D, tree_consistent ROps 0 x msl (cls_out_ok x yi (length classes)) samples nodes G D /\
+      (forall r n, r < length x -> n < length nodes ->
+        (route ROps nodes (nth r x []) n -> nth r (G n) 0 = nth r samples 0) /\
+        (~ route ROps nodes (nth r x []) n -> nth r (G n) 0 = 0)) /\
+      exists labels, predict_classifier ROps classes nodes x = Some labels /\ length labels = length x /\
+        forall i, i < length x ->
+          exists k, leaf_of ROps nodes (nth i x []) k /\ k < length nodes /\
+            leafb (nth k nodes (dnode 0)) = true /\
+            nth i (G k) 0 = nth i samples 0 /\
+            (forall k', k' < length nodes -> leafb (nth k' nodes (dnode 0)) = true -> k' <> k ->
+                        nth i (G k') 0 = 0) /\
+            output (nth k nodes (dnode 0)) < length classes /\
+            nth i labels 0%R = nth (output (nth k nodes (dnode 0))) classes 0%R /\
+            In (nth i labels 0%R) y /\
+            forall c, nth c (cvec x yi (length classes) (G k)) 0 <=
+                      nth (output (nth k nodes (dnode 0))) (cvec x yi (length classes) (G k)) 0.
+Proof. exact predict_training_classifier_weak. Qed.
+
+Theorem C05_predict_training_rows_classifier :
+  forall lg2 crit x y md msl mss classes nodes d,
+  length y = length x ->
+  fit_classifier ROps lg2 crit x y md msl mss = Some (classes, nodes, d) ->
+  exists yi, length yi = length x /\
+    (forall i, i < length x -> nth i yi 0 < length classes /\ nth (nth i yi 0) classes 0%R = nth i y 0%R) /\
+    exists G D, tree_consistent ROps 0 x msl (cls_out_ok x yi (length classes)) (repeat 1 (length x)) nodes G D /\
+      (forall r n, r < length x -> n < length nodes ->
+        (route ROps nodes (nth r x []) n -> nth r (G n) 0 = 1) /\
+        (~ route ROps nodes (nth r x []) n -> nth r (G n) 0 = 0)) /\
+      exists labels, predict_classifier ROps classes nodes x = Some labels /\ length labels = length x /\
+        forall i, i < length x ->
+          exists k, leaf_of ROps nodes (nth i x []) k /\ k < length nodes /\
+            leafb (nth k nodes (dnode 0)) = true /\
+            nth i (G k) 0 = 1 /\
+            (forall k', k' < length nodes -> leafb (nth k' nodes (dnode 0)) = true -> k' <> k ->
+                        nth i (G k') 0 = 0) /\
+            output (nth k nodes (dnode 0)) < length classes /\
+            nth i labels 0%R = nth (output (nth k nodes (dnode 0))) classes 0%R /\
+            In (nth i labels 0%R) y /\
+            forall c, nth c (cvec x yi (length classes) (G k)) 0 <=
+                      nth (output (nth k nodes (dnode 0))) (cvec x yi (length classes) (G k)) 0.
+Proof. exact predict_training_classifier_fit. Qed.
+
+(* ---- strictly increasing feature maps (regression tree) ----
+   The candidate thresholds are midpoints (a + b)/2 of neighbouring training values; after transforming a
+   feature column by a strictly increasing map f they are (f a + f b)/2, not f((a + b)/2).  Hence the
+   statement "predictions are unchanged when one feature column of the training and of the query data is
+   transformed by the same strictly increasing map" is FALSE for query rows that fall between the two
+   thresholds - C05_predict_invariant_monotone_feature_map_refuted: binary64 model, f = cube (strictly
+   increasing), training column [1; 3], targets [0; 1]: thresholds 2 resp. 14, the query 2.25 is predicted
+   1 before and 0 after the transformation (2.25^3 = 11.390625 <= 14). *)
+Theorem C05_predict_invariant_monotone_feature_map_refuted :
+  let f := (fun v : float => v * v * v)%float in
+  exists nodes d nodes' d',
+    fit_regressor FOps [[1];[3]]%float [0;1]%float None 1 2 = Some (nodes, d) /\
+    fit_regressor FOps (map (map f) [[1];[3]]%float) [0;1]%float None 1 2 = Some (nodes', d') /\
+    predict_regressor FOps nodes [[1];[3];[2.25]]%float = Some [0;1;1]%float /\
+    predict_regressor FOps nodes' (map (map f) [[1];[3];[2.25]]%float) = Some [0;1;0]%float.
+Proof.
+  cbv zeta. eexists. eexists. eexists. eexists.
+  split; [vm_compute; reflexivity|]. split; [vm_compute; reflexivity|]. split; vm_compute; reflexivity.
+Qed.
+
+(* What IS true (exact reals, proved): the partition of the TRAINING rows and their predictions are
+   unchanged.  Vocabulary (C05/ProofsMonotone.v, C05/ProofsMonotoneReg.v):
+   - `same_order x x' j` : column j of x' is ordered like column j of x (x[r][j] <= x[r'][j] iff
+     x'[r][j] <= x'[r'][j] for all rows r, r');
+   - `map_col f j0 x` : x with f applied to entry j0 of every row;
+   - `erase nd` : the node without the VALUE of its threshold (output, split feature, whether a threshold is
+     present, split score, child indices);
+   - `res_rel r' r` : both fits fail, or both succeed with `map erase`-equal node arrays and equal depth.
+   General form: any weights, tried features and limits, a common family `order` of sorting permutations
+   (as in C05_leaf_value_regression; quick_argsort makes the same comparisons on both matrices), every
+   tried column of x' ordered like the column of x: the two fitted trees are equal up to the threshold
+   values (same outputs, split features, scores, children, depth), ONE family of ghost sample vectors G
+   satisfies the growth invariant for both - the training rows are partitioned identically, node by
+   node - and every training row of weight > 0 gets the same prediction. *)
+Theorem C05_monotone_columns_same_training_partition :
+  forall (x x' : list (list R)) y samples vars order md msl mss,
+    length x' = length x ->
+    (forall id j, In j (vars id) -> sorted_order x j (nth j order [])) ->
+    (forall id j, In j (vars id) -> same_order x x' j) ->
+    res_rel (fit_regressor_with_order ROps x' y samples vars order md msl mss)
+            (fit_regressor_with_order ROps x y samples vars order md msl mss) /\
+    forall nodes' nodes d' d,
+      fit_regressor_with_order ROps x' y samples vars order md msl mss = Some (nodes', d') ->
+      fit_regressor_with_order ROps x y samples vars order md msl mss = Some (nodes, d) ->
+      map erase nodes' = map erase nodes /\ d' = d /\
+      (exists G D, tree_consistent ROps 0%R x msl (fun _ _ => True) samples nodes G D /\
+                   tree_consistent ROps 0%R x' msl (fun _ _ => True) samples nodes' G D) /\
+      forall i, i < length x -> 0 < nth i samples 0 ->
+        predict_for_row ROps nodes' (nth i x' []) = predict_for_row ROps nodes (nth i x []).
+Proof.
+  intros x x' y samples vars order md msl mss Hl Ho Hc. split.
+  - exact (fit_regressor_with_order_sim x x' Hl y msl order mss vars Ho Hc samples md).
+  - intros nodes' nodes d' d. exact (fit_regressor_with_order_same_partition x x' Hl y msl order mss vars Ho Hc samples md nodes' nodes d' d).
+Qed.
+
+(* the target's form: ONE feature column j0 (present in every row) of the training matrix transformed by a
+   strictly increasing map f; the query rows are the (transformed) training rows *)
+Theorem C05_predict_invariant_monotone_feature_map_training_rows :
+  forall (f : R -> R) j0 x y samples vars order md msl mss,
+    (forall a b, (a < b)%R -> (f a < f b)%R) ->
+    (forall r, r < length x -> j0 < length (nth r x [])) ->
+    (forall id j, In j (vars id) -> sorted_order x j (nth j order [])) ->
+    res_rel (fit_regressor_with_order ROps (map_col f j0 x) y samples vars order md msl mss)
+            (fit_regressor_with_order ROps x y samples vars order md msl mss) /\
+    forall nodes' nodes d' d,
+      fit_regressor_with_order ROps (map_col f j0 x) y samples vars order md msl mss = Some (nodes', d') ->
+      fit_regressor_with_order ROps x y samples vars order md msl mss = Some (nodes, d) ->
+      map erase nodes' = map erase nodes /\ d' = d /\
+      (exists G D, tree_consistent ROps 0%R x msl (fun _ _ => True) samples nodes G D /\
+                   tree_consistent ROps 0%R (map_col f j0 x) msl (fun _ _ => True) samples nodes' G D) /\
+      forall i, i < length x -> 0 < nth i samples 0 ->
+        predict_for_row ROps nodes' (nth i (map_col f j0 x) []) = predict_for_row ROps nodes (nth i x []).
+Proof. exact monotone_column_training_rows. Qed.
+
+(* ... and for DecisionTreeRegressor::fit followed by predict on the (transformed) training matrix, the
+   orders being computed by quick_argsort on each matrix: same tree up to threshold values, same partition,
+   and the two prediction vectors for the training rows are EQUAL.
+   PARTIAL only in the side condition f 0 = 0: the simulation lemma for the transliterated quicksort
+   (ProofsScale.quick_argsort_phi) is stated for maps fixing 0, because the sort's out-of-range default
+   element is the pair (0, 0); the sort never reads out of range on a non-empty column, but that is not
+   proved.  The full statement (any strictly increasing f) is the Definition below; what is missing is
+   exactly `quick_argsort ROps (map f col) = quick_argsort ROps col` without f 0 = 0.  The `_with_order`
+   theorem above has no such condition. *)
+Theorem C05_predict_invariant_monotone_feature_map_training_rows_fit_partial :
+  forall (f : R -> R) j0 x y md msl mss,
+    f 0%R = 0%R ->
+    (forall a b, (a < b)%R -> (f a < f b)%R) ->
+    (forall r, r < length x -> j0 < length (nth r x [])) ->
+    res_rel (fit_regressor ROps (map_col f j0 x) y md msl mss) (fit_regressor ROps x y md msl mss) /\
+    forall nodes' nodes d' d,
+      fit_regressor ROps (map_col f j0 x) y md msl mss = Some (nodes', d') ->
+      fit_regressor ROps x y md msl mss = Some (nodes, d) ->
+      map erase nodes' = map erase nodes /\ d' = d /\
+      (exists G D, tree_consistent ROps 0%R x msl (fun _ _ => True) (repeat 1 (length x)) nodes G D /\
+                   tree_consistent ROps 0%R (map_col f j0 x) msl (fun _ _ => True) (repeat 1 (length x)) nodes' G D) /\
+      exists outs, predict_regressor ROps nodes' (map_col f j0 x) = Some outs /\
+                   predict_regressor ROps nodes x = Some outs.
+Proof.
+  intros f j0 x y md msl mss H0 Hf Hr. exact (monotone_column_training_rows_fit f H0 Hf j0 x Hr y md msl mss).
+Qed.
+Definition C05_predict_invariant_monotone_feature_map_training_rows_fit_full_statement : Prop :=
+  forall (f : R -> R) j0 x y md msl mss,
+    (forall a b, (a < b)%R -> (f a < f b)%R) ->
+    (forall r, r < length x -> j0 < length (nth r x [])) ->
+    forall nodes' nodes d' d,
+      fit_regressor ROps (map_col f j0 x) y md msl mss = Some (nodes', d') ->
+      fit_regressor ROps x y md msl mss = Some (nodes, d) ->
+      map erase nodes' = map erase nodes /\ d' = d /\
+      exists outs, predict_regressor ROps nodes' (map_col f j0 x) = Some outs /\
+                   predict_regressor ROps nodes x = Some outs.
+
+(* the same for arbitrary output type and split search (both trees, any number type): whenever two split
+   searches agree up to the value of the threshold (`cand_rel`: same feature, score, child outputs, and the
+   two thresholds split the rows counted by s alike), the grown trees have the same partition.  Axiom-free. *)
+Theorem C05_same_partition_generic :
+  forall T A (O : Ops T) (a0 : A) (x x' : list (list T)) msl find find' root_out samples md nodes' nodes d' d,
+    length x' = length x ->
+    (forall id out s, ocand_rel O x x' s (find' id out s) (find id out s)) ->
+    grow_tree O a0 x' msl find' root_out samples md = Some (nodes', d') ->
+    grow_tree O a0 x msl find root_out samples md = Some (nodes, d) ->
+    map erase nodes' = map erase nodes /\ d' = d /\
+    exists G D, tree_consistent O a0 x msl (fun _ _ => True) samples nodes G D /\
+                tree_consistent O a0 x' msl (fun _ _ => True) samples nodes' G D.
+Proof.
+  intros T A O a0 x x' msl find find' r s md nodes' nodes d' d Hl Hf H' H.
+  exact (grow_tree_same_partition O a0 x x' Hl msl find find' Hf r s md nodes' nodes d' d H' H).
+Qed.
+
 (* ---- the hypotheses are satisfiable (binary64 instance, evaluated by the kernel) ---- *)
 Example C05_regressor_instance :
   exists nodes d,
@@ -607,6 +921,57 @@ Example C05_classifier_instance :
       = Some (classes, nodes, d) /\ classes = [-2; 17; 100]%float /\ length nodes = 9 /\ wf_treeb nodes = true.
 Proof.
   eexists. eexists. eexists. split; [vm_compute; reflexivity|]. repeat split; vm_compute; reflexivity.
+Qed.
+
+(* predict on fitted trees (binary64, evaluated by the kernel): the regressor of C05_regressor_instance
+   predicts its training rows with the means of their leaves (rows 0,1 share a leaf: (1 + 1.5)/2), the
+   classifier of C05_classifier_instance (no limits; rows 0 and 1 are identical with different labels)
+   returns a plurality label for every training row, and the path of a row ends in a leaf *)
+Example C05_predict_regressor_instance :
+  exists nodes d,
+    fit_regressor FOps [[1;5];[2;4];[3;9];[4;1];[5;7];[6;2]]%float [1;1.5;3;3.5;10;11]%float (Some 3) 1 2
+      = Some (nodes, d) /\ wf_treeb nodes = true /\
+    predict_regressor FOps nodes [[1;5];[2;4];[3;9];[4;1];[5;7];[6;2]]%float
+      = Some [1.25; 1.25; 3.25; 3.25; 10.5; 10.5]%float.
+Proof. eexists. eexists. split; [vm_compute; reflexivity|]. split; vm_compute; reflexivity. Qed.
+
+Example C05_predict_classifier_instance :
+  exists classes nodes d,
+    fit_classifier FOps (fun p => p) Gini
+      [[1;0];[1;0];[1;1];[2;1];[2;1];[3;0];[3;0];[3;2]]%float [-2;17;-2;17;17;100;-2;100]%float None 1 0
+      = Some (classes, nodes, d) /\ wf_treeb nodes = true /\
+    forallb (fun nd => output nd <? length classes) nodes = true /\
+    predict_classifier FOps classes nodes [[1;0];[1;1];[2;1];[3;0];[3;2];[0;7]]%float
+      = Some [-2; -2; 17; -2; 100; -2]%float.
+Proof.
+  eexists. eexists. eexists. split; [vm_compute; reflexivity|]. repeat split; vm_compute; reflexivity.
+Qed.
+
+Example C05_root_path_instance :
+  let nodes : list (node float float) :=
+    [mkNode 0%float 0 (Some 2%float) None (Some 1) (Some 2); mkNode 7%float 0 None None None None;
+     mkNode 9%float 0 None None None None] in
+  wf_treeb nodes = true /\ root_path FOps nodes [3%float] [0] 2 /\ leaf_of FOps nodes [3%float] 2.
+Proof.
+  cbv zeta. split; [vm_compute; reflexivity|].
+  match goal with |- ?P /\ _ => assert (H : P) end.
+  { eapply rp_step; [apply rp_root|reflexivity|reflexivity|vm_compute; reflexivity]. }
+  split; [exact H|]. eexists. eexists. split; [exact H|]. split; reflexivity.
+Qed.
+
+(* hypotheses of the monotone-map theorems: a strictly increasing map, a column present in every row,
+   and the transformed matrix, whose column 0 is ordered like the original one *)
+Example C05_map_col_instance :
+  let f := (fun v : R => 3 * v + 1)%R in
+  (forall a b, (a < b)%R -> (f a < f b)%R) /\
+  (forall r, r < length [[1;5];[2;4]]%R -> 0 < length (nth r [[1;5];[2;4]]%R [])) /\
+  map_col f 0 [[1;5];[2;4]]%R = [[3 * 1 + 1; 5]; [3 * 2 + 1; 4]]%R /\
+  same_order [[1;5];[2;4]]%R (map_col f 0 [[1;5];[2;4]]%R) 0.
+Proof.
+  cbv zeta. split; [intros a b H; lra|]. split.
+  - intros r Hr. cbn in Hr. destruct r as [|[|r]]; cbn; lia.
+  - split; [reflexivity|]. apply map_col_same_order; [intros a b H; lra|].
+    intros r Hr. cbn in Hr. destruct r as [|[|r]]; cbn; lia.
 Qed.
 
 Example C05_argsort_instance :
